@@ -99,6 +99,19 @@ func (a *FA) build() {
 	}
 }
 
+// loopExitTest: the block is inside a loop and one of its successors leaves that loop.
+func (a *FA) loopExitTest(b *ssa.BasicBlock) bool {
+	if !a.inCycle(b) {
+		return false
+	}
+	for _, s := range b.Succs {
+		if !a.reachFrom(s)[b.Index] {
+			return true
+		}
+	}
+	return false
+}
+
 func (a *FA) inCycle(b *ssa.BasicBlock) bool {
 	for _, s := range b.Succs {
 		if a.reachFrom(s)[b.Index] {
@@ -479,8 +492,8 @@ func (a *FA) Guards() []*Guard {
 		}
 		// context: dominating branch conditions that are not themselves the pass-edge of a guard
 		for _, j := range a.ifs {
-			if j == i || a.inCycle(j.Block()) {
-				continue // loop-header conditions are not part of a guard's context
+			if j == i || a.loopExitTest(j.Block()) {
+				continue // loop-header conditions (tests that leave the loop) are not part of a guard's context
 			}
 			pair := a.edgeDom[j]
 			jb := j.Block()
@@ -520,6 +533,25 @@ func (a *FA) GuardSet() map[string]*Guard {
 	for _, g := range a.Guards() {
 		m[g.String()] = g
 		one := map[string]bool{g.String(): true}
+		// a guard on a merged value (`want := B; if c { want = A }; if x != want {reject}`) is one guard per incoming
+		// edge, each in the context of that edge's condition
+		for _, v := range a.guardInstances(g) {
+			one[v.String()] = true
+		}
+		// `if a { if b {reject} }` and `if b && a {reject}` reject under the same conjunction: any conjunct may be
+		// written as the innermost test
+		if n := len(g.Ctx); n >= 1 && n <= 3 && !g.Imported {
+			all := append(append([]*Expr(nil), g.Ctx...), g.Cond)
+			for i := range all {
+				ng := &Guard{If: g.If, Cond: all[i]}
+				for j := range all {
+					if j != i {
+						ng.Ctx = append(ng.Ctx, all[j])
+					}
+				}
+				one[ng.String()] = true
+			}
+		}
 		eqClose(one, a.PathConds(g.If.Block()))
 		for s := range one {
 			if _, dup := m[s]; !dup {
@@ -528,6 +560,55 @@ func (a *FA) GuardSet() map[string]*Guard {
 		}
 	}
 	return m
+}
+
+func (a *FA) guardInstances(g *Guard) []*Guard {
+	if g.Imported {
+		return nil
+	}
+	var pick *ssa.Phi
+	n := 0
+	g.Cond.Walk(func(s *Expr) {
+		ph, ok := s.Val.(*ssa.Phi)
+		if !ok || s.Op != "phi" || s.Name != "" || ph.Parent() != a.Fn {
+			return
+		}
+		if pick != ph {
+			pick = ph
+			n++
+		}
+	})
+	if pick == nil || n != 1 || len(pick.Edges) > 4 || len(pick.Edges) != len(pick.Block().Preds) {
+		return nil
+	}
+	conds := a.P.PhiEdgeConds(pick)
+	common := map[string]bool{}
+	for s := range conds[0] {
+		common[s] = true
+	}
+	for _, c2 := range conds[1:] {
+		for s := range common {
+			if !c2[s] {
+				delete(common, s)
+			}
+		}
+	}
+	var out []*Guard
+	for i, e := range pick.Edges {
+		ng := &Guard{If: g.If, Cond: replaceVal(g.Cond, pick, a.X.E(e)), Ctx: append([]*Expr(nil), g.Ctx...)}
+		var extra []string
+		for s := range conds[i] {
+			if !common[s] {
+				extra = append(extra, s)
+			}
+		}
+		sort.Strings(extra)
+		for _, s := range extra {
+			ng.Ctx = append(ng.Ctx, mk("lin", s, nil))
+		}
+		out = append(out, ng)
+	}
+	return out
 }
 
 // Calls returns call instructions in fn whose resolved callee (static) or invoked method matches pred.
@@ -720,7 +801,10 @@ func (p *Program) PhiEdgeConds(ph *ssa.Phi) []map[string]bool {
 	var out []map[string]bool
 	for i := range ph.Edges {
 		pr := ph.Block().Preds[i]
-		m := a.PathCondStrings(pr)
+		m := map[string]bool{}
+		for _, c := range a.PathConds(pr) { // as written (no equality variants)
+			m[c.String()] = true
+		}
 		if iff, ok := pr.Instrs[len(pr.Instrs)-1].(*ssa.If); ok && pr.Succs[0] != pr.Succs[1] {
 			c := a.X.E(iff.Cond)
 			if pr.Succs[1] == ph.Block() {
